@@ -76,17 +76,15 @@ func isSubsequence(xs, of []string) (bool, string) {
 
 func oracleC02(rep *Report, x *distilled, replay interface{}) {
 	srcToks := subtreeTokens(x.D.Root)
+	// the visible text of the source: words of text nodes that are not inside a non-rendered
+	// element (a word may also occur in <title> or another hidden place and still be visible)
 	srcSet := map[string]bool{}
-	for _, t := range srcToks {
-		srcSet[t] = true
-	}
-	// words that are in the source only inside non-rendered elements are not "visible text"
 	var tw func(*html.Node)
 	tw = func(n *html.Node) {
 		if n.Type == html.TextNode {
-			if cls, _ := hiddenClass(n); strings.HasPrefix(cls, "hidden:") {
+			if cls, _ := hiddenClass(n); !strings.HasPrefix(cls, "hidden:") {
 				for _, t := range tokensOf(n.Data) {
-					delete(srcSet, t)
+					srcSet[t] = true
 				}
 			}
 		}
